@@ -280,16 +280,20 @@ pub fn expand(text: &str, cfg: &str) -> Class {
         Ok(Ok(j)) => j,
     };
     match catch_unwind(AssertUnwindSafe(|| generate_join(&j, cfg_of(cfg)))) {
-        Err(e) => {
-            let m = panic_text(e);
-            if CONFIG_REJECTIONS.iter().any(|c| m.contains(c)) {
-                Class::ConfigReject(m)
-            } else {
-                Class::Panic(format!("generator: {}", m))
-            }
-        }
+        // a panic of the generator is an internal panic whatever its message (until fix d63049e of /repo a handler / option that
+        // does not fit the macro kind was reported by `.unwrap()`ing the generator's own error; that was whitelisted here,
+        // which was too lenient)
+        Err(e) => Class::Panic(format!("generator: {}", panic_text(e))),
         Ok(out) => {
             let s = out.to_string();
+            // the generator's own rejection of a join that does not fit the macro kind: `::std::compile_error!("..")`
+            let flat: String = s.chars().filter(|c| !c.is_whitespace()).collect();
+            if flat.starts_with("::std::compile_error!(") {
+                return match CONFIG_REJECTIONS.iter().find(|c| s.contains(*c)) {
+                    Some(c) => Class::ConfigReject(c.to_string()),
+                    None => Class::Reject(s.clone(), s),
+                };
+            }
             match syn::parse2::<syn::Expr>(out) {
                 Ok(_) => Class::Ok(s),
                 Err(e) => {
